@@ -17,6 +17,7 @@ RULE = ("cases: lists of 1..12 contiguous addresses of one class (Address / Addr
         "len(out) <= len(in); ascending order; class and platform preserved; no notes; inputs not mutated; "
         "refusals raise TypeError. Non-trivial: output shorter than input or input has nested/adjacent "
         "networks; distinct by canonical list")
+RULE += ". Directed classes added after the seeded-change rounds: runs of up to 130 consecutive equal-size networks; tilings of a block and its neighbour; ten shapes of non-contiguous wildcards for the refusal (which must have no single network); edited results and re-addressed inputs between two calls; iterables"
 ASSUMPTIONS = ["minimality of the result is not asserted (the statement does not claim it)",
                "networks shorter than /1 are not generated (an IOS group member cannot express 0.0.0.0/0)"]
 
